@@ -59,7 +59,7 @@ func c07Value(c C07Case) interface{} {
 }
 
 // positions: template set + name of the filter used is a parameter
-const c07NPos = 11
+const c07NPos = 14
 
 func c07Templates(pos int, f string) map[string]string {
 	switch pos {
@@ -85,6 +85,13 @@ func c07Templates(pos int, f string) map[string]string {
 		return map[string]string{"main": "{% set y = v|" + f + " %}{{ y }}"}
 	case 10:
 		return map[string]string{"main": "{% if true %}{{ (v)|" + f + " }}{% endif %}"}
+	case 11:
+		// the escaped value is kept while another value is escaped (must not be overwritten)
+		return map[string]string{"main": "{% set a = v|" + f + " %}{% set b = 'other <text> & more'|" + f + " %}{{ a }}"}
+	case 12:
+		return map[string]string{"main": "{{ [v|" + f + ", '<&>'|" + f + "]|first }}"}
+	case 13:
+		return map[string]string{"main": "{% set a = v|" + f + " %}{% for q in ['<1>', '<22>'] %}{% set z = q|" + f + " %}{% endfor %}{{ a }}"}
 	}
 	panic("pos")
 }
